@@ -145,11 +145,17 @@ class Translator:
         return out
 
     def lean_binder(self, name, kind):
-        t = {"S": "α", "V": "List α", "N": "Nat", "B": "Bool", "ON": "Option Nat", "RN": "α → Nat", "OS": "Option α"}[kind]
+        t = {"S": "α", "V": "List α", "N": "Nat", "B": "Bool", "ON": "Option Nat", "RN": "α → Nat", "OS": "Option α",
+             "FN": "α → α", "FN2": "α → α → α"}[kind]
         return f"({name} : {t})"
 
     # ---- expressions
     def expr(self, c: Ctx, e) -> object:
+        consts = c.spec.get("constants")
+        if consts and not isinstance(e, (ast.Name, ast.Constant)):
+            txt = ast.unparse(e)
+            if txt in consts:
+                return Sc(consts[txt])
         m = getattr(self, "e_" + type(e).__name__, None)
         if m is None:
             raise Untranslatable(f"expression {type(e).__name__}: {ast.unparse(e)}")
@@ -285,7 +291,16 @@ class Translator:
                 return Sc(f"({self.to_scalar(a).s} / {self.to_scalar(b).s})")
             return Nt(f"({a.s} {op} {b.s})")
         if op == "%":
-            raise Untranslatable(f"float modulo {ast.unparse(e)}")
+            modf = c.env.get("__mod__")
+            if modf is None:
+                raise Untranslatable(f"float modulo {ast.unparse(e)} without a `mod` parameter in the spec")
+            if isinstance(a, Vec) and isinstance(b, Vec):
+                return Vec(self.merge(c, a, b), f"({modf} {paren(a.body)} {paren(b.body)})")
+            if isinstance(a, Vec):
+                return Vec(a.bases, f"({modf} {paren(a.body)} {paren(self.to_scalar(b).s)})")
+            if isinstance(b, Vec):
+                return Vec(b.bases, f"({modf} {paren(self.to_scalar(a).s)} {paren(b.body)})")
+            return Sc(f"({modf} {paren(self.to_scalar(a).s)} {paren(self.to_scalar(b).s)})")
         if isinstance(a, Vec) or isinstance(b, Vec):
             if isinstance(a, Vec) and isinstance(b, Vec):
                 return Vec(self.merge(c, a, b), f"({a.body} {op} {b.body})")
@@ -448,6 +463,12 @@ class Translator:
                 a, b = (self.expr(c, x) for x in e.args)
                 fn = "Model.minS" if name == "min" else "Model.maxS"
                 return Sc(f"({fn} {paren(self.to_scalar(a).s)} {paren(self.to_scalar(b).s)})")
+            fns = c.spec.get("functions", {})
+            if name in fns and len(e.args) == 1:
+                v = self.vec_of(c, self.expr(c, e.args[0]))
+                if isinstance(v, Vec):
+                    return Vec(v.bases, f"({fns[name]} {paren(v.body)})")
+                return Sc(f"({fns[name]} {paren(self.to_scalar(v).s)})")
             if name in self.sigs:
                 return self.fun_call(c, name, None, e.args, kw, e)
             if name in self.specs:
@@ -478,6 +499,8 @@ class Translator:
             return self.e_BinOp(c, ast.BinOp(args[0], ast.Div(), args[1]))
         if fn == "isnan":
             return ("isnan", self.expr(c, args[0]))
+        if fn in ("ones", "zeros") and c.spec.get("row_mode"):
+            return Sc("1" if fn == "ones" else "0")
         raise Untranslatable(f"array function {ast.unparse(e)}")
 
     def reduce(self, c, fn, v: Vec, args, kw, e):
@@ -538,6 +561,14 @@ class Translator:
                 actual.append("fuel")
             elif origin[0] == "round":
                 actual.append(c.env["__round__"])
+            elif origin[0] == "const":
+                if origin[1] not in c.env.get("__consts__", {}):
+                    raise Untranslatable(f"{name} needs the constant parameter `{origin[1]}`")
+                actual.append(origin[1])
+            elif origin[0] == "fn":
+                if origin[1] not in c.env.get("__fns__", {}):
+                    raise Untranslatable(f"{name} needs the function parameter `{origin[1]}`")
+                actual.append(c.env["__fns__"][origin[1]])
             elif origin[0] == "obj":
                 # an object-typed parameter of the callee: pass the caller's object with the same class
                 raise Untranslatable("object-typed parameters in calls are not supported")
@@ -551,7 +582,14 @@ class Translator:
                     val = self.expr(c, ast.parse(spec["defaults"][pname], mode="eval").body)
                 else:
                     raise Untranslatable(f"missing argument `{pname}` in {ast.unparse(e)}")
-                if kind == "S":
+                if kind == "OS":
+                    if val == ("none",):
+                        actual.append("none")
+                    elif isinstance(val, Op):
+                        actual.append(paren(val.s))
+                    else:
+                        actual.append(f"(some {paren(self.to_scalar(val).s)})")
+                elif kind == "S":
                     actual.append(paren(self.to_scalar(val).s))
                 elif kind == "V":
                     if isinstance(val, tuple) and val and val[0] == "vcall":
@@ -622,6 +660,8 @@ class Translator:
             if "isnan" in src:
                 return f"NaN guard `{src}` (raises; inputs are assumed NaN-free)"
         if isinstance(st, ast.Pass):
+            return "pass"
+        if isinstance(st, (ast.Import, ast.ImportFrom)):
             return "pass"
         return None
 
@@ -738,6 +778,11 @@ class Translator:
             raise Untranslatable(f"truthiness of a number: {ast.unparse(test)}")
         return self.as_prop(self.to_bool(c, v)).s
 
+    def option_truthy(self, c, test):
+        if isinstance(test, ast.Name) and isinstance(c.env.get(test.id), Op):
+            return test.id
+        return None
+
     def option_test(self, c, test):
         """`x is None` / `x is not None` on an optional variable -> (name, none_first)"""
         if (isinstance(test, ast.Compare) and len(test.ops) == 1 and isinstance(test.ops[0], (ast.Is, ast.IsNot))
@@ -749,7 +794,17 @@ class Translator:
     def if_stmt(self, c, st, rest, k):
         opt = self.option_test(c, st.test)
         c1, c2 = c.child(), c.child()
-        if opt is not None:
+        truthy = self.option_truthy(c, st.test)
+        if truthy is not None:
+            # `if eps:` on an optional number: present and non-zero
+            name = truthy
+            c1.env[name] = Sc(name)
+            fmt = lambda a, b: (f"match {name} with\n| some {name} =>\n" + indent(f"if (Gen.ne {name} 0) then\n{indent(a)}\nelse\n{indent(b)}")
+                                + f"\n| none =>\n{indent(b)}")
+            opt = ("handled",)
+        if opt == ("handled",):
+            pass
+        elif opt is not None:
             name, none_first = opt
             some_val = Nt(name) if isinstance(c.env[name], ON) else Sc(name)
             (c1 if none_first else c2).env[name] = ("none",)
@@ -965,6 +1020,17 @@ class Translator:
         if spec.get("round"):
             env["__round__"] = "roundNat"
             params.append(("roundNat", "RN", ("round",)))
+        if spec.get("mod"):
+            env["__mod__"] = "fmod"
+            env.setdefault("__fns__", {})["fmod"] = "fmod"
+            params.append(("fmod", "FN2", ("fn", "fmod")))
+        for pyname, ln in spec.get("functions", {}).items():
+            env.setdefault("__fns__", {})[ln] = ln
+            params.append((ln, "FN", ("fn", ln)))
+        for txt, ln in spec.get("constants", {}).items():
+            if (ln, "S", ("const", ln)) not in params:
+                params.append((ln, "S", ("const", ln)))
+                env.setdefault("__consts__", {})[ln] = ln
         c = Ctx(self, spec, env)
         c.outputs = []
         c.tail_dup = False
